@@ -1,4 +1,1002 @@
-//! c11 check (under construction)
+//! C11 - hop-field authentication and per-AS advance are a correct monotone state machine.
+//!
+//! States are the byte strings of a standard path; transitions are the REAL
+//! `StandardPathView::advance_ingress_with_validator(HopMacValidator{key}, from_internal)` and
+//! `advance_egress_with_validator(HopMacValidator{key})`. Authentic paths are built with the
+//! REFERENCE MAC chain (`vpc::refmac`, written from the specification) and the reference codec
+//! (`vpc::refwire`), so "authentic" is defined independently of the crate.
+//!
+//! Parts:
+//!  (1)+(2) explicit-state exploration: from every start state (all seg-len triples in {0..3}^3,
+//!        every cons-dir assignment, peering flags, hop flags, every CurrINF 0..3 x CurrHF
+//!        0..hops+1) every sequence over {ingress-int, ingress-ext, egress} x {right key, wrong
+//!        key} up to depth 2*hops+2. Identical byte strings are merged (the step functions only see
+//!        the bytes and their arguments); for every newly discovered state its history is replayed
+//!        from the start bytes on a fresh buffer and must reproduce the state (this validates the
+//!        merge and makes every discovered state the end of one explicitly executed trace).
+//!        Oracles: Err => bytes unchanged; Ok => pointers monotone, egress => CurrHF+1, pointer
+//!        stays on a hop field, hence #forwardings <= hops-1 on every sequence.
+//!  (3)   canonical walk with the right keys validates at every hop, forward, and after the
+//!        crate's own `try_reverse`, backward; all cons-dir assignments.
+//!  (4)   every single-bit flip (and every pair) of an authenticated field of an authentic path
+//!        (both travel directions) makes validation fail at or before the owning AS.
+//!  (5)   one-hop paths: what sciparse offers (OneHopPath::new, set_second_hop on model and view,
+//!        try_into_reversed_standard_path) produces MACs equal to the reference MAC and a path
+//!        that the standard advance validates in both directions.
+use std::collections::BTreeMap;
+
+use rayon::prelude::*;
+use sciparse::{
+    core::{encode::WireEncode, view::View},
+    dataplane_path::{
+        onehop::{model::OneHopPath, view::OneHopPathView},
+        standard::{
+            mac::ForwardingKey,
+            routing::{AdvanceError, EgressValidateResult, HopMacValidator, IngressAdvanceAction, IngressValidateResult},
+            view::StandardPathView,
+        },
+    },
+};
+use vpc::{
+    Value, hex, json, refmac,
+    refwire::{RHop, RInfo, RStdPath},
+    unhex,
+};
+
+use crate::util::{self, Acc};
+
+const WRONG_KEY: ForwardingKey = [0xEE; 16];
+
+fn as_key(a: usize) -> ForwardingKey {
+    let mut k = [0u8; 16];
+    for (i, b) in k.iter_mut().enumerate() {
+        *b = (a as u8).wrapping_mul(29).wrapping_add((i as u8).wrapping_mul(13)).wrapping_add(0x41);
+    }
+    k
+}
+
+// ------------------------------------------------------------------------------------------
+// transitions on the real code
+// ------------------------------------------------------------------------------------------
+
+#[derive(Clone, Copy, PartialEq, Eq, Debug)]
+pub enum Op {
+    IngInt,
+    IngExt,
+    Egr,
+}
+const OPS: [Op; 3] = [Op::IngInt, Op::IngExt, Op::Egr];
+impl Op {
+    fn name(self) -> &'static str {
+        match self {
+            Op::IngInt => "ingress-int",
+            Op::IngExt => "ingress-ext",
+            Op::Egr => "egress",
+        }
+    }
+    fn parse(s: &str) -> Option<Op> {
+        OPS.into_iter().find(|o| o.name() == s)
+    }
+    fn idx(self) -> usize {
+        self as usize
+    }
+}
+
+/// Outcome of one advance call.
+#[derive(Clone, Copy, PartialEq, Eq, Debug)]
+pub enum Res {
+    IngOkContinue,
+    IngOkLocal,
+    IngVfContinue,
+    IngVfLocal,
+    EgrOk,
+    EgrVf,
+    ErrHopOob,
+    ErrInfoOob,
+    ErrSegIdx,
+    ErrStateSingleHop,
+    ErrStateSegEnd,
+    ErrStateOther,
+    Panic,
+}
+const NRES: usize = 13;
+const RES_ALL: [Res; NRES] = [
+    Res::IngOkContinue,
+    Res::IngOkLocal,
+    Res::IngVfContinue,
+    Res::IngVfLocal,
+    Res::EgrOk,
+    Res::EgrVf,
+    Res::ErrHopOob,
+    Res::ErrInfoOob,
+    Res::ErrSegIdx,
+    Res::ErrStateSingleHop,
+    Res::ErrStateSegEnd,
+    Res::ErrStateOther,
+    Res::Panic,
+];
+impl Res {
+    fn name(self) -> &'static str {
+        match self {
+            Res::IngOkContinue => "Ok(validated,ContinueEgress)",
+            Res::IngOkLocal => "Ok(validated,ForwardLocal)",
+            Res::IngVfContinue => "Ok(ValidationFailed,ContinueEgress)",
+            Res::IngVfLocal => "Ok(ValidationFailed,ForwardLocal)",
+            Res::EgrOk => "Ok(validated)",
+            Res::EgrVf => "Ok(ValidationFailed)",
+            Res::ErrHopOob => "Err(HopOutOfBounds)",
+            Res::ErrInfoOob => "Err(InfoOutOfBounds)",
+            Res::ErrSegIdx => "Err(InvalidSegmentIndex)",
+            Res::ErrStateSingleHop => "Err(InvalidPathState:single-hop-segment)",
+            Res::ErrStateSegEnd => "Err(InvalidPathState:segment-end-at-egress)",
+            Res::ErrStateOther => "Err(InvalidPathState:other)",
+            Res::Panic => "panic",
+        }
+    }
+    fn is_err(self) -> bool {
+        matches!(self, Res::ErrHopOob | Res::ErrInfoOob | Res::ErrSegIdx | Res::ErrStateSingleHop | Res::ErrStateSegEnd | Res::ErrStateOther | Res::Panic)
+    }
+    /// advanced AND validated
+    fn validated(self) -> bool {
+        matches!(self, Res::IngOkContinue | Res::IngOkLocal | Res::EgrOk)
+    }
+    fn delivered(self) -> bool {
+        matches!(self, Res::IngOkLocal | Res::IngVfLocal)
+    }
+}
+
+fn err_kind(e: &AdvanceError) -> Res {
+    match e {
+        AdvanceError::HopOutOfBounds(_) => Res::ErrHopOob,
+        AdvanceError::InfoOutOfBounds(_) => Res::ErrInfoOob,
+        AdvanceError::InvalidSegmentIndex { .. } => Res::ErrSegIdx,
+        AdvanceError::InvalidPathState(m) if m.contains("single hop") => Res::ErrStateSingleHop,
+        AdvanceError::InvalidPathState(m) if m.contains("segment end") => Res::ErrStateSegEnd,
+        AdvanceError::InvalidPathState(_) => Res::ErrStateOther,
+    }
+}
+
+/// One call into the subject. `buf` must be exactly one path (checked by the caller once).
+fn apply(buf: &mut [u8], op: Op, key: &ForwardingKey) -> Res {
+    let r = vpc::catch(|| {
+        let (v, _rest) = match StandardPathView::try_from_mut_slice(buf) {
+            Ok(x) => x,
+            Err(e) => vpc::machinery_failure(&format!("C11: state no longer accepted by the view constructor: {e}")),
+        };
+        match op {
+            Op::IngInt | Op::IngExt => match v.advance_ingress_with_validator(HopMacValidator { key: *key }, op == Op::IngInt) {
+                Ok(IngressValidateResult::Ok(o)) => match o.action {
+                    IngressAdvanceAction::ContinueEgress { .. } => Res::IngOkContinue,
+                    IngressAdvanceAction::ForwardLocal => Res::IngOkLocal,
+                },
+                Ok(IngressValidateResult::ValidationFailed(o, _)) => match o.action {
+                    IngressAdvanceAction::ContinueEgress { .. } => Res::IngVfContinue,
+                    IngressAdvanceAction::ForwardLocal => Res::IngVfLocal,
+                },
+                Err(e) => err_kind(&e),
+            },
+            Op::Egr => match v.advance_egress_with_validator(HopMacValidator { key: *key }) {
+                Ok(EgressValidateResult::Ok(_)) => Res::EgrOk,
+                Ok(EgressValidateResult::ValidationFailed(..)) => Res::EgrVf,
+                Err(e) => err_kind(&e),
+            },
+        }
+    });
+    r.unwrap_or(Res::Panic)
+}
+
+fn curr_inf(b: &[u8]) -> u8 {
+    b[0] >> 6
+}
+fn curr_hf(b: &[u8]) -> u8 {
+    b[0] & 0x3f
+}
+
+// ------------------------------------------------------------------------------------------
+// reference construction of authentic paths
+// ------------------------------------------------------------------------------------------
+
+#[derive(Clone, Debug)]
+struct Layout {
+    shape: [u8; 3],
+    /// the non-zero segments in order: (first hop index, length)
+    segs: Vec<(usize, usize)>,
+    hops: usize,
+    /// travel ordinal of the AS that owns hop j (the last hop of a segment and the first hop of
+    /// the next one belong to the same AS)
+    ord_of_hop: Vec<usize>,
+    nas: usize,
+    /// contiguous non-zero lengths, each >= 2: the shapes the specification allows
+    well_formed: bool,
+}
+
+fn layout(shape: [u8; 3]) -> Layout {
+    let mut segs = vec![];
+    let mut start = 0usize;
+    for l in shape {
+        if l > 0 {
+            segs.push((start, l as usize));
+            start += l as usize;
+        }
+    }
+    let hops = start;
+    let mut ord_of_hop = vec![0usize; hops];
+    for (k, (s, l)) in segs.iter().enumerate() {
+        for p in 0..*l {
+            ord_of_hop[s + p] = (s + p) - k;
+        }
+    }
+    let nas = ord_of_hop.last().map(|x| x + 1).unwrap_or(0);
+    let n = segs.len();
+    let prefix = shape.iter().take(n).all(|l| *l > 0) && shape.iter().skip(n).all(|l| *l == 0);
+    let well_formed = n >= 1 && prefix && segs.iter().all(|(_, l)| *l >= 2);
+    Layout { shape, segs, hops, ord_of_hop, nas, well_formed }
+}
+
+/// Authentic path at its start position (CurrINF = CurrHF = 0), MACs from the reference chain.
+/// `cons_mask` bit k = ConsDir of the k-th (non-empty) segment, `peer_mask` likewise the peering
+/// flag (MAC chain stays the plain one: peering paths only take part in oracles (1),(2)).
+/// `key_of_ord(o)` = forwarding key of the o-th AS in travel order.
+fn build_path(lay: &Layout, cons_mask: u8, peer_mask: u8, hop_flags: u8, key_of_ord: &dyn Fn(usize) -> ForwardingKey) -> RStdPath {
+    let mut infos = vec![];
+    let mut hops: Vec<RHop> = vec![];
+    for (k, (start, len)) in lay.segs.iter().enumerate() {
+        let cons = cons_mask >> k & 1 == 1;
+        let ts: u32 = 0x6553_F100 + 0x1000 * k as u32;
+        let seg0: u16 = [0x1357u16, 0x9bdf, 0x2468][k];
+        let mut seg_hops: Vec<RHop> = (0..*len)
+            .map(|p| {
+                let j = start + p;
+                let i = if cons { p } else { len - 1 - p }; // position in construction order
+                RHop {
+                    flags: hop_flags,
+                    exp_time: 20 + 3 * j as u8,
+                    cons_ingress: if i == 0 { 0 } else { 0x0100 * (j as u16 + 1) + 0x11 },
+                    cons_egress: if i == len - 1 { 0 } else { 0x0100 * (j as u16 + 1) + 0x22 },
+                    mac: [0; 6],
+                }
+            })
+            .collect();
+        // chain in construction order
+        let mut beta = seg0;
+        let mut beta_last = seg0;
+        for i in 0..*len {
+            let p = if cons { i } else { len - 1 - i };
+            let key = key_of_ord(lay.ord_of_hop[start + p]);
+            let h = &mut seg_hops[p];
+            h.mac = refmac::hop_mac(&key, beta, ts, h.exp_time, h.cons_ingress, h.cons_egress);
+            beta_last = beta;
+            beta = refmac::beta_step(beta, &h.mac);
+        }
+        // SegID carried by a packet at the start of the segment: beta_0 in construction direction,
+        // the beta of the last-constructed hop against it.
+        let seg_id = if cons { seg0 } else { beta_last };
+        infos.push(RInfo { flags: (cons as u8) | ((peer_mask >> k & 1) << 1), rsv: 0, seg_id, timestamp: ts });
+        hops.extend(seg_hops);
+    }
+    RStdPath { curr_inf: 0, curr_hf: 0, rsv: 0, seg_len: lay.shape, infos, hops }
+}
+
+fn info_off(k: usize) -> usize {
+    4 + 8 * k
+}
+fn hop_off(lay: &Layout, j: usize) -> usize {
+    4 + 8 * lay.segs.len() + 12 * j
+}
+
+/// (byte offset, bit, field, owner = travel ordinal of the AS that must detect the change at the latest)
+fn authenticated_bits(lay: &Layout) -> Vec<(usize, u8, &'static str, usize)> {
+    let mut v = vec![];
+    for (k, (start, _)) in lay.segs.iter().enumerate() {
+        let owner = lay.ord_of_hop[*start];
+        for byte in 2..8 {
+            for bit in 0..8 {
+                v.push((info_off(k) + byte, bit, if byte < 4 { "segid" } else { "timestamp" }, owner));
+            }
+        }
+    }
+    for j in 0..lay.hops {
+        for byte in 1..12 {
+            let f = match byte {
+                1 => "exptime",
+                2 | 3 => "consingress",
+                4 | 5 => "consegress",
+                _ => "mac",
+            };
+            for bit in 0..8 {
+                v.push((hop_off(lay, j) + byte, bit, f, lay.ord_of_hop[j]));
+            }
+        }
+    }
+    v
+}
+/// bits that are NOT in the MAC input (negative control, informational only)
+fn unauthenticated_bits(lay: &Layout) -> Vec<(usize, u8)> {
+    let mut v = vec![];
+    for k in 0..lay.segs.len() {
+        for bit in 2..8 {
+            v.push((info_off(k), bit)); // reserved info flags
+        }
+        for bit in 0..8 {
+            v.push((info_off(k) + 1, bit)); // info RSV
+        }
+    }
+    for j in 0..lay.hops {
+        for bit in 0..8 {
+            v.push((hop_off(lay, j), bit)); // hop flags (router alerts, reserved)
+        }
+    }
+    v
+}
+
+// ------------------------------------------------------------------------------------------
+// (1)+(2) explicit-state exploration
+// ------------------------------------------------------------------------------------------
+
+struct Node {
+    bytes: Vec<u8>,
+    parent: usize,
+    via: (Op, bool),
+    depth: usize,
+}
+
+fn right_key(lay: &Layout, b: &[u8]) -> ForwardingKey {
+    let ch = curr_hf(b) as usize;
+    as_key(if ch < lay.hops { lay.ord_of_hop[ch] } else { 0 })
+}
+
+fn history(nodes: &[Node], mut i: usize) -> Vec<(Op, bool)> {
+    let mut h = vec![];
+    while i != 0 {
+        h.push(nodes[i].via);
+        i = nodes[i].parent;
+    }
+    h.reverse();
+    h
+}
+
+fn ops_json(lay: &Layout, start: &[u8], ops: &[(Op, bool)]) -> Value {
+    // keys written out, so that a replay needs nothing but the file
+    let mut b = start.to_vec();
+    let mut out = vec![];
+    for (op, right) in ops {
+        let key = if *right { right_key(lay, &b) } else { WRONG_KEY };
+        out.push(json!({"op": op.name(), "key": hex(&key), "key_kind": if *right {"right"} else {"wrong"}}));
+        apply(&mut b, *op, &key);
+    }
+    Value::Array(out)
+}
+
+struct Counts {
+    cls: [[[u64; NRES]; 2]; 3],
+}
+
+fn explore(lay: &Layout, start: &[u8], depth_bound: usize, acc: &mut Acc, cnt: &mut Counts, states: &mut Vec<u64>) {
+    let ch_start = curr_hf(start) as usize;
+    let mut nodes: Vec<Node> = vec![Node { bytes: start.to_vec(), parent: 0, via: (Op::Egr, false), depth: 0 }];
+    let mut index: BTreeMap<Vec<u8>, usize> = BTreeMap::new();
+    index.insert(start.to_vec(), 0);
+    let mut i = 0usize;
+    let mut transitions = 0u64;
+    let mut replays = 0u64;
+    let mut saturated = true;
+    let mut max_fwd = 0usize;
+    while i < nodes.len() {
+        if nodes[i].depth >= depth_bound {
+            // the frontier at the bound is not expanded
+            saturated = false;
+            i += 1;
+            continue;
+        }
+        let b0 = nodes[i].bytes.clone();
+        let (ci0, ch0) = (curr_inf(&b0), curr_hf(&b0));
+        for op in OPS {
+            for right in [true, false] {
+                let key = if right { right_key(lay, &b0) } else { WRONG_KEY };
+                let mut b1 = b0.clone();
+                let res = apply(&mut b1, op, &key);
+                transitions += 1;
+                cnt.cls[op.idx()][right as usize][res as usize] += 1;
+                let depth_i = nodes[i].depth;
+                let wkey = || (b0.len() as u64 * 64 + depth_i as u64, vpc::fnv64(&b0) ^ (op.idx() as u64 * 2 + right as u64));
+                let witness = |nodes: &[Node]| {
+                    let mut h = history(nodes, i);
+                    h.push((op, right));
+                    json!({"kind": "sequence", "shape": lay.shape, "start": hex(start), "ops": ops_json(lay, start, &h),
+                           "state_before_last_op": hex(&b0), "state_after_last_op": hex(&b1), "last_result": res.name()})
+                };
+                if res == Res::Panic {
+                    let class = util::panic_class();
+                    acc.viol(&class, wkey(), || format!("{} panicked: {}", op.name(), util::last_panic().1), || witness(&nodes));
+                    continue;
+                }
+                if res.is_err() {
+                    // oracle (1)
+                    if b1 != b0 {
+                        acc.viol(
+                            &format!("err-mutates-path:{}:{}", op.name(), res.name()),
+                            wkey(),
+                            || format!("{} returned {} but the path bytes changed", op.name(), res.name()),
+                            || witness(&nodes),
+                        );
+                    }
+                    continue;
+                }
+                // oracle (2)
+                let (ci1, ch1) = (curr_inf(&b1), curr_hf(&b1));
+                let mut bad: Option<&'static str> = None;
+                if ch1 < ch0 || ci1 < ci0 {
+                    bad = Some("pointer-moved-backwards");
+                } else if b1[1..4] != b0[1..4] {
+                    bad = Some("advance-changed-segment-lengths");
+                } else if ch1 as usize >= lay.hops {
+                    bad = Some("pointer-left-the-path");
+                } else if op == Op::Egr && !(ch1 == ch0 + 1 && ci1 == ci0) {
+                    bad = Some("egress-pointer-not-plus-one");
+                } else if op != Op::Egr && !((ch1 == ch0 && ci1 == ci0) || (ch1 == ch0 + 1 && ci1 == ci0 + 1)) {
+                    bad = Some("ingress-pointer-jump");
+                }
+                if let Some(c) = bad {
+                    acc.viol(
+                        &format!("{c}:{}", op.name()),
+                        wkey(),
+                        || format!("{} returned {}: (CurrINF,CurrHF) ({ci0},{ch0}) -> ({ci1},{ch1}), hops {}", op.name(), res.name(), lay.hops),
+                        || witness(&nodes),
+                    );
+                }
+                max_fwd = max_fwd.max((ch1 as usize).saturating_sub(ch_start));
+                if b1 != b0 && !index.contains_key(&b1) {
+                    let id = nodes.len();
+                    index.insert(b1.clone(), id);
+                    nodes.push(Node { bytes: b1.clone(), parent: i, via: (op, right), depth: nodes[i].depth + 1 });
+                    // replay the whole history on a fresh buffer: must reproduce the state
+                    let h = history(&nodes, id);
+                    let mut rb = start.to_vec();
+                    for (o, r) in &h {
+                        let k = if *r { right_key(lay, &rb) } else { WRONG_KEY };
+                        apply(&mut rb, *o, &k);
+                        transitions += 1;
+                    }
+                    replays += 1;
+                    if rb != b1 {
+                        acc.viol(
+                            "replayed-history-gives-different-bytes",
+                            wkey(),
+                            || "replaying the op history from the start bytes did not reproduce the state (step functions are not a function of bytes+arguments)".into(),
+                            || witness(&nodes),
+                        );
+                    }
+                }
+            }
+        }
+        i += 1;
+    }
+    acc.max("max_forwardings_on_any_sequence", max_fwd as u64);
+    acc.max("max_forwardings_beyond_hop_count", max_fwd.saturating_sub(lay.hops) as u64);
+    acc.add("bfs_transitions", transitions);
+    acc.add("bfs_histories_replayed", replays);
+    acc.add("bfs_start_states", 1);
+    if saturated {
+        acc.add("bfs_start_states_saturated_below_bound", 1);
+    }
+    acc.max("max_states_from_one_start", nodes.len() as u64);
+    acc.max("max_depth_reached", nodes.iter().map(|n| n.depth).max().unwrap_or(0) as u64);
+    if nodes.len() > 1 {
+        acc.sample("explored-history", (1u64 << 32) - nodes.len() as u64, 2, || {
+            let last = nodes.len() - 1;
+            json!({"kind": "explored-history", "shape": lay.shape, "start": hex(start), "ops": ops_json(lay, start, &history(&nodes, last)), "end": hex(&nodes[last].bytes), "states_from_this_start": nodes.len()})
+        });
+    }
+    states.extend(nodes.iter().map(|n| vpc::fnv64(&n.bytes)));
+}
+
+// ------------------------------------------------------------------------------------------
+// (3)+(4) canonical walk
+// ------------------------------------------------------------------------------------------
+
+#[derive(Clone, Debug)]
+struct WalkStep {
+    op: Op,
+    ord: usize,
+    res: Res,
+}
+
+/// First hop entered from inside the AS, every other from outside; egress after every ingress
+/// that says ContinueEgress. Continues through ValidationFailed (the API documents the path as
+/// advanced), stops at delivery, Err, or after 2*hops+2 calls.
+fn walk(lay_hops: usize, ord_of_hop: &[usize], key_of_ord: &dyn Fn(usize) -> ForwardingKey, buf: &mut [u8]) -> (Vec<WalkStep>, bool) {
+    let mut steps = vec![];
+    let mut op = Op::IngInt;
+    for _ in 0..(2 * lay_hops + 2) {
+        let ch = curr_hf(buf) as usize;
+        let ord = if ch < lay_hops { ord_of_hop[ch] } else { usize::MAX };
+        let key = if ch < lay_hops { key_of_ord(ord) } else { WRONG_KEY };
+        let res = apply(buf, op, &key);
+        steps.push(WalkStep { op, ord, res });
+        if res.is_err() {
+            return (steps, false);
+        }
+        if res.delivered() {
+            return (steps, true);
+        }
+        op = if op == Op::Egr { Op::IngExt } else { Op::Egr };
+    }
+    (steps, false)
+}
+
+fn steps_json(steps: &[WalkStep]) -> Value {
+    Value::Array(steps.iter().map(|s| json!({"op": s.op.name(), "as_ordinal": if s.ord == usize::MAX { Value::Null } else { json!(s.ord) }, "result": s.res.name()})).collect())
+}
+
+fn first_failure(steps: &[WalkStep]) -> Option<usize> {
+    steps.iter().find(|s| !s.res.validated()).map(|s| s.ord)
+}
+
+/// Oracle (3) on one authentic path; returns the bytes after (walk, try_reverse) = the authentic
+/// path of the opposite travel direction at its start position, if everything went well.
+fn check_authentic_walk(lay: &Layout, cons_mask: u8, acc: &mut Acc) -> Option<(Vec<u8>, Vec<u8>)> {
+    let fwd_key = |o: usize| as_key(o);
+    let start = build_path(lay, cons_mask, 0, 0, &fwd_key).to_bytes();
+    let wkey = (start.len() as u64, cons_mask as u64);
+    let mut b = start.clone();
+    let (steps, delivered) = walk(lay.hops, &lay.ord_of_hop, &fwd_key, &mut b);
+    acc.add("walk_calls", steps.len() as u64);
+    acc.add("walks", 1);
+    let ingresses = steps.iter().filter(|s| s.op != Op::Egr).count();
+    let all_valid = steps.iter().all(|s| s.res.validated());
+    let wit = |dir: &str, shape: [u8; 3], st: &[u8], steps: &[WalkStep]| json!({"kind": "walk", "shape": shape, "cons_mask": cons_mask, "direction": dir, "start": hex(st), "steps": steps_json(steps)});
+    if !all_valid || !delivered || curr_hf(&b) as usize != lay.hops - 1 || ingresses != lay.nas {
+        let bad = steps.iter().find(|s| !s.res.validated());
+        let class = match bad {
+            Some(s) if s.res.is_err() => format!("authentic-walk-aborted:forward:{}:{}", s.op.name(), s.res.name()),
+            Some(s) => format!("authentic-walk-validation-failed:forward:{}", s.op.name()),
+            None => "authentic-walk-wrong-end:forward".to_string(),
+        };
+        acc.viol(&class, wkey, || format!("authentic path (reference MAC chain, right per-AS keys) does not verify on the forward walk; shape {:?} cons_mask {cons_mask:#b}", lay.shape), || wit("forward", lay.shape, &start, &steps));
+        acc.outcome("walk/forward/failed");
+        return None;
+    }
+    acc.outcome("walk/forward/validated-at-every-hop");
+    acc.sample("walk", (1u64 << 32) - (start.len() as u64 * 16 + cons_mask as u64), 2, || wit("forward", lay.shape, &start, &steps));
+    // reversal by the crate, then the walk back with the ASes in opposite order
+    let before_rev = b.clone();
+    let rev = vpc::catch(|| StandardPathView::try_from_mut_slice(&mut b).unwrap().0.try_reverse().is_ok());
+    match rev {
+        Ok(true) => {}
+        Ok(false) | Err(_) => {
+            acc.viol("authentic-walk-reverse-refused", wkey, || "try_reverse failed on a fully walked authentic path".into(), || wit("forward", lay.shape, &start, &steps));
+            return None;
+        }
+    }
+    let ref_rev = RStdPath::parse(&before_rev).map(|p| p.reversed().to_bytes());
+    acc.outcome(if ref_rev.as_deref() == Ok(&b[..]) { "walk/reverse/bytes==reference-reversal" } else { "walk/reverse/bytes!=reference-reversal" });
+    // the reversed path, built independently: mirrored shape, toggled cons dirs, same ASes
+    let rshape = {
+        let n = lay.segs.len();
+        let mut s = [0u8; 3];
+        for k in 0..n {
+            s[k] = lay.shape[n - 1 - k];
+        }
+        s
+    };
+    let rlay = layout(rshape);
+    let nas = lay.nas;
+    let rev_key = move |o: usize| as_key(nas - 1 - o);
+    let rstart = b.clone();
+    let (rsteps, rdelivered) = walk(rlay.hops, &rlay.ord_of_hop, &rev_key, &mut b);
+    acc.add("walk_calls", rsteps.len() as u64);
+    acc.add("walks", 1);
+    let ring = rsteps.iter().filter(|s| s.op != Op::Egr).count();
+    if !rsteps.iter().all(|s| s.res.validated()) || !rdelivered || curr_hf(&b) as usize != rlay.hops - 1 || ring != rlay.nas {
+        let bad = rsteps.iter().find(|s| !s.res.validated());
+        let class = match bad {
+            Some(s) if s.res.is_err() => format!("authentic-walk-aborted:backward:{}:{}", s.op.name(), s.res.name()),
+            Some(s) => format!("authentic-walk-validation-failed:backward:{}", s.op.name()),
+            None => "authentic-walk-wrong-end:backward".to_string(),
+        };
+        acc.viol(&class, wkey, || format!("authentic path verified forward, was reversed with try_reverse, and does not verify on the walk back; shape {:?} cons_mask {cons_mask:#b}", lay.shape), || wit("backward", rshape, &rstart, &rsteps));
+        acc.outcome("walk/backward/failed");
+        return None;
+    }
+    acc.outcome("walk/backward/validated-at-every-hop");
+    Some((start, rstart))
+}
+
+/// Oracle (4) on one authentic path at its start position.
+fn check_tamper(lay: &Layout, ord_of_hop: &[usize], key_of_ord: &(dyn Fn(usize) -> ForwardingKey + Sync), start: &[u8], dir: &'static str, pairs: bool, acc: &mut Acc) {
+    let bits = authenticated_bits(lay);
+    let judge = |acc: &mut Acc, flips: &[(usize, u8, &'static str, usize)]| {
+        let mut b = start.to_vec();
+        for (off, bit, _, _) in flips {
+            b[*off] ^= 1 << bit;
+        }
+        let tampered = b.clone();
+        let owner = flips.iter().map(|f| f.3).min().unwrap();
+        let (steps, _) = walk(lay.hops, ord_of_hop, key_of_ord, &mut b);
+        acc.add("walk_calls", steps.len() as u64);
+        acc.add(if flips.len() == 1 { "tamper_single_walks" } else { "tamper_pair_walks" }, 1);
+        let fields: Vec<&str> = flips.iter().map(|f| f.2).collect();
+        let tag = if flips.len() == 1 { "tamper" } else { "tamper2" };
+        let wkey = (start.len() as u64 * 4 + flips.len() as u64, (flips[0].0 as u64) << 8 | flips[0].1 as u64);
+        let wit = |steps: &[WalkStep]| {
+            json!({"kind": "tamper", "shape": lay.shape, "direction": dir, "authentic": hex(start),
+                   "flips": flips.iter().map(|f| json!({"byte": f.0, "bit": f.1, "field": f.2, "owner_as_ordinal": f.3})).collect::<Vec<_>>(),
+                   "tampered": hex(&tampered), "steps": steps_json(steps)})
+        };
+        match first_failure(&steps) {
+            None => {
+                acc.outcome(&format!("{tag}/undetected"));
+                acc.viol(&format!("{tag}-undetected:{}", fields.join("+")), wkey, || format!("flipping {fields:?} bit(s) of an authentic path is not detected at any hop of the walk"), || wit(&steps));
+            }
+            Some(o) if o > owner => {
+                acc.outcome(&format!("{tag}/detected-late"));
+                acc.viol(&format!("{tag}-detected-late:{}", fields.join("+")), wkey, || format!("flipping {fields:?} bit(s) is first detected at AS #{o}, later than the owning AS #{owner}"), || wit(&steps));
+            }
+            Some(o) if o == owner => acc.outcome(&format!("{tag}/detected-at-owner-AS")),
+            Some(_) => acc.outcome(&format!("{tag}/detected-before-owner-AS")),
+        }
+    };
+    for f in &bits {
+        judge(acc, &[*f]);
+    }
+    if pairs {
+        for x in 0..bits.len() {
+            for y in x + 1..bits.len() {
+                judge(acc, &[bits[x], bits[y]]);
+            }
+        }
+    }
+    // negative control (informational): bits outside the MAC input
+    for (off, bit) in unauthenticated_bits(lay) {
+        let mut b = start.to_vec();
+        b[off] ^= 1 << bit;
+        let (steps, d) = walk(lay.hops, ord_of_hop, key_of_ord, &mut b);
+        acc.add("walk_calls", steps.len() as u64);
+        acc.add("control_walks", 1);
+        acc.outcome(if d && steps.iter().all(|s| s.res.validated()) { "control-unauthenticated-bit/still-validates" } else { "control-unauthenticated-bit/fails" });
+    }
+}
+
+// ------------------------------------------------------------------------------------------
+// (5) one-hop paths (the sciparse part; pocketscion's OneHopRoutingLogic is not reachable here)
+// ------------------------------------------------------------------------------------------
+
+fn std_from_onehop(onehop: &[u8]) -> Vec<u8> {
+    // PathMeta: CurrINF 0, CurrHF 0, Seg0Len 2
+    let mut v = ((2u32) << 12).to_be_bytes().to_vec();
+    v.extend_from_slice(onehop);
+    v
+}
+
+fn check_onehop(acc: &mut Acc) {
+    let lay = layout([2, 0, 0]);
+    let k1 = as_key(0);
+    let k2 = as_key(1);
+    let fwd = |o: usize| as_key(o);
+    let bwd = |o: usize| as_key(1 - o);
+    for egress in [1u16, 0x1234] {
+        for ingress in [2u16, 0xBEEF] {
+            for seg_id in [0u16, 0xA5C3] {
+                for ts in [1u32, 0x6000_0000] {
+                    for exp in [0u8, 63, 255] {
+                        for advanced in [false, true] {
+                            for via_view in [false, true] {
+                                acc.add("onehop_cases", 1);
+                                let wkey = (exp as u64, (egress as u64) << 32 | (ingress as u64) << 16 | seg_id as u64);
+                                let params = json!({"kind": "onehop", "egress": egress, "ingress": ingress, "seg_id": seg_id, "timestamp": ts, "exp": exp, "segment_id_was_advanced": advanced, "via_view": via_view});
+                                let r = vpc::catch(|| {
+                                    let mut m = OneHopPath::new(egress, seg_id, ts, k1, exp);
+                                    let mac1 = refmac::hop_mac(&k1, seg_id, ts, exp, 0, egress);
+                                    let ok1 = m.hops[0].mac.0 == mac1 && m.info.segment_id == seg_id && m.info.flags.bits() == 1;
+                                    let beta1 = refmac::beta_step(seg_id, &mac1);
+                                    if advanced {
+                                        m.info.segment_id = beta1; // what the egress router of AS 1 does
+                                    }
+                                    let bytes: Vec<u8> = if via_view {
+                                        let mut b = m.try_encode_to_vec().unwrap();
+                                        let (v, _) = OneHopPathView::try_from_mut_slice(&mut b).unwrap();
+                                        v.set_second_hop(ingress, k2, advanced);
+                                        b
+                                    } else {
+                                        m.set_second_hop(ingress, k2, advanced);
+                                        m.try_encode_to_vec().unwrap()
+                                    };
+                                    let h2 = RHop::from_bytes(&bytes[20..32]);
+                                    let ok2 = h2.cons_ingress == ingress && h2.cons_egress == 0 && h2.mac == refmac::hop_mac(&k2, beta1, ts, h2.exp_time, ingress, 0);
+                                    (ok1, ok2, bytes, beta1)
+                                });
+                                let (ok1, ok2, bytes, beta1) = match r {
+                                    Ok(x) => x,
+                                    Err(m) => {
+                                        acc.viol(&util::panic_class(), wkey, || format!("one-hop construction panicked: {m}"), || params.clone());
+                                        continue;
+                                    }
+                                };
+                                acc.outcome(if ok1 { "onehop/first-hop-mac==reference" } else { "onehop/first-hop-mac!=reference" });
+                                acc.outcome(if ok2 { "onehop/second-hop-mac==reference" } else { "onehop/second-hop-mac!=reference" });
+                                if !ok1 {
+                                    acc.viol("onehop-first-hop-mac-not-authentic", wkey, || "OneHopPath::new: MAC of the first hop differs from the reference MAC".into(), || params.clone());
+                                }
+                                if !ok2 {
+                                    acc.viol(if via_view { "onehop-view-second-hop-mac-not-authentic" } else { "onehop-model-second-hop-mac-not-authentic" }, wkey, || "set_second_hop: the second hop is not (ingress,0) with the reference MAC over its own fields and beta_1".into(), || params.clone());
+                                }
+                                // forward walk of the equivalent standard path (SegID at its start value)
+                                let mut fw = bytes.clone();
+                                fw[2..4].copy_from_slice(&seg_id.to_be_bytes());
+                                let mut sp = std_from_onehop(&fw);
+                                let start = sp.clone();
+                                let (steps, d) = walk(2, &lay.ord_of_hop, &fwd, &mut sp);
+                                acc.add("walk_calls", steps.len() as u64);
+                                acc.add("walks", 1);
+                                let okf = d && steps.iter().all(|s| s.res.validated());
+                                acc.outcome(if okf { "onehop/forward-walk-validates" } else { "onehop/forward-walk-fails" });
+                                if !okf {
+                                    acc.viol("onehop-forward-walk-fails", wkey, || "completed one-hop path does not verify hop by hop as the equivalent 2-hop standard path".into(), || json!({"params": params, "kind": "walk", "start": hex(&start), "steps": steps_json(&steps)}));
+                                    continue;
+                                }
+                                // model reversal into a standard path (SegID must be the advanced one), walk back
+                                let mut adv = bytes.clone();
+                                adv[2..4].copy_from_slice(&beta1.to_be_bytes());
+                                let r = vpc::catch(|| {
+                                    let (v, _) = OneHopPathView::try_from_slice(&adv).unwrap();
+                                    let m = sciparse::core::convert::ToModel::to_model(v);
+                                    m.try_into_reversed_standard_path().map(|p| p.try_encode_to_vec().unwrap()).map_err(|_| ())
+                                });
+                                match r {
+                                    Ok(Ok(mut rb)) => {
+                                        let rstart = rb.clone();
+                                        let (steps, d) = walk(2, &lay.ord_of_hop, &bwd, &mut rb);
+                                        acc.add("walk_calls", steps.len() as u64);
+                                        acc.add("walks", 1);
+                                        let okb = d && steps.iter().all(|s| s.res.validated());
+                                        acc.outcome(if okb { "onehop/reversed-standard-walk-validates" } else { "onehop/reversed-standard-walk-fails" });
+                                        if !okb {
+                                            acc.viol("onehop-reversed-standard-walk-fails", wkey, || "try_into_reversed_standard_path of a completed one-hop path does not verify on the way back".into(), || json!({"params": params, "kind": "walk", "start": hex(&rstart), "steps": steps_json(&steps)}));
+                                        }
+                                    }
+                                    Ok(Err(())) => acc.viol("onehop-reversal-refused", wkey, || "try_into_reversed_standard_path refused a completed one-hop path".into(), || params.clone()),
+                                    Err(m) => acc.viol(&util::panic_class(), wkey, || format!("one-hop reversal panicked: {m}"), || params.clone()),
+                                }
+                            }
+                        }
+                    }
+                }
+            }
+        }
+    }
+}
+
+// ------------------------------------------------------------------------------------------
+// replay
+// ------------------------------------------------------------------------------------------
+
+fn replay(file: &std::path::Path) -> ! {
+    let v = vpc::read_replay(file);
+    let w = &v["witness"];
+    println!("replay of class {} : {}", v["class"], v["what"]);
+    let run_steps = |start: &str, ops: &Vec<Value>| {
+        let mut b = unhex(start);
+        println!("  start  {}", hex(&b));
+        for o in ops {
+            let op = Op::parse(o["op"].as_str().unwrap_or("")).unwrap_or_else(|| vpc::machinery_failure("bad op in replay"));
+            let key: ForwardingKey = unhex(o["key"].as_str().unwrap_or("")).try_into().unwrap_or_else(|_| vpc::machinery_failure("bad key in replay"));
+            let before = b.clone();
+            let res = apply(&mut b, op, &key);
+            println!("  {:<11} key {} -> {:<40} (CurrINF,CurrHF) ({},{})->({},{}) bytes {}", op.name(), &hex(&key)[..8], res.name(), curr_inf(&before), curr_hf(&before), curr_inf(&b), curr_hf(&b), if before == b { "unchanged".to_string() } else { format!("changed -> {}", hex(&b)) });
+            if res.is_err() && before != b {
+                println!("  ^^ Err(_) with modified path bytes: oracle (1) violated");
+            }
+        }
+    };
+    match w["kind"].as_str() {
+        Some("sequence") => run_steps(w["start"].as_str().unwrap(), w["ops"].as_array().unwrap()),
+        Some("tamper") | Some("walk") => {
+            let shape: Vec<u8> = w["shape"].as_array().map(|a| a.iter().map(|x| x.as_u64().unwrap() as u8).collect()).unwrap_or(vec![2, 0, 0]);
+            let lay = layout([shape[0], shape[1], shape[2]]);
+            let start = w.get("tampered").or(w.get("start")).and_then(|x| x.as_str()).unwrap();
+            let backward = w["direction"].as_str() == Some("backward");
+            let nas = lay.nas;
+            let key = move |o: usize| if backward { as_key(nas - 1 - o) } else { as_key(o) };
+            let mut b = unhex(start);
+            println!("  start  {}", hex(&b));
+            let (steps, delivered) = walk(lay.hops, &lay.ord_of_hop, &key, &mut b);
+            for s in &steps {
+                println!("  {:<11} at AS #{:<3} -> {}", s.op.name(), s.ord, s.res.name());
+            }
+            println!("  delivered: {delivered}; first failing AS ordinal: {:?}", first_failure(&steps));
+        }
+        _ => println!("  (witness kind {:?}: parameters only, re-run the check to re-execute)\n  {}", w["kind"], w),
+    }
+    std::process::exit(0)
+}
+
+// ------------------------------------------------------------------------------------------
+
 pub fn run(args: &vpc::Args) -> ! {
-    vpc::machinery_failure(&format!("property {} not implemented yet", args.prop))
+    util::install_panic_hook();
+    if let Some(f) = &args.replay {
+        replay(f);
+    }
+    let run = vpc::Run::new(args);
+    let thorough = run.tier == vpc::Tier::Thorough;
+
+    // ---- task list for (1)+(2)
+    // quick:    seg lens {0..3}^3, hop flags {0,0xFF}, peering none/all
+    // thorough: seg lens {0..3}^3 with hop flags {0,1,2,3,0xFF} and every peering mask, plus every
+    //           triple of {0..4}^3 that contains a 4 with hop flags {0,0xFF}, peering none/all
+    let full_flags: &[u8] = &[0x00, 0x01, 0x02, 0x03, 0xFF];
+    let small_flags: &[u8] = &[0x00, 0xFF];
+    let maxlen: u8 = std::env::var("VERIF_C11_MAXLEN").ok().and_then(|s| s.parse().ok()).unwrap_or(if thorough { 4 } else { 3 });
+    let mut tasks: Vec<([u8; 3], u8, u8, u8)> = vec![];
+    for a in 0..=maxlen {
+        for b in 0..=maxlen {
+            for c in 0..=maxlen {
+                let big = a > 3 || b > 3 || c > 3;
+                let rich = thorough && !big;
+                let n = [a, b, c].iter().filter(|x| **x > 0).count() as u32;
+                for cons in 0..(1u8 << n) {
+                    let mut peers: Vec<u8> = if rich { (0..(1u8 << n)).collect() } else { vec![0, (1u8 << n) - 1] };
+                    peers.dedup();
+                    for peer in peers {
+                        for hf in if rich { full_flags } else { small_flags } {
+                            tasks.push(([a, b, c], cons, peer, *hf));
+                        }
+                    }
+                }
+            }
+        }
+    }
+    // big shapes first (better load balance; results do not depend on the order)
+    tasks.sort_by_key(|t| std::cmp::Reverse((t.0.iter().map(|x| *x as u32).sum::<u32>(), t.3)));
+    let total_cnt = std::sync::Mutex::new(Counts { cls: [[[0; NRES]; 2]; 3] });
+    let mut acc = tasks
+        .par_iter()
+        .map(|(shape, cons, peer, hf)| {
+            let mut acc = Acc::default();
+            let mut cnt = Counts { cls: [[[0; NRES]; 2]; 3] };
+            let lay = layout(*shape);
+            let base = build_path(&lay, *cons, *peer, *hf, &|o| as_key(o)).to_bytes();
+            // the view constructor must accept exactly these bytes
+            match StandardPathView::try_from_slice(&base) {
+                Ok((v, rest)) if rest.is_empty() && v.as_slice().len() == base.len() => {}
+                _ => {
+                    acc.outcome("start-shape/rejected-by-view-constructor");
+                    return acc;
+                }
+            }
+            acc.outcome(if lay.well_formed { "start-shape/well-formed" } else { "start-shape/malformed-but-accepted" });
+            let mut states: Vec<u64> = vec![];
+            let depth = 2 * lay.hops + 2;
+            for ci in 0..4u8 {
+                for ch in 0..=((lay.hops + 1).min(63) as u8) {
+                    let mut start = base.clone();
+                    start[0] = ci << 6 | ch;
+                    explore(&lay, &start, depth, &mut acc, &mut cnt, &mut states);
+                }
+            }
+            states.sort_unstable();
+            states.dedup();
+            acc.hashes = states;
+            let mut t = total_cnt.lock().unwrap();
+            for o in 0..3 {
+                for k in 0..2 {
+                    for r in 0..NRES {
+                        t.cls[o][k][r] += cnt.cls[o][k][r];
+                    }
+                }
+            }
+            acc
+        })
+        .reduce(Acc::default, |mut a, b| {
+            a.merge(b);
+            a
+        });
+    {
+        let t = total_cnt.lock().unwrap();
+        for op in OPS {
+            for k in 0..2 {
+                for r in RES_ALL {
+                    let n = t.cls[op.idx()][k][r as usize];
+                    if n > 0 {
+                        acc.outcome_n(&format!("{}/{}/{}", op.name(), if k == 1 { "right-key" } else { "wrong-key" }, r.name()), n);
+                    }
+                }
+            }
+        }
+    }
+    let t_bfs = run.elapsed_s();
+
+    // ---- (3)+(4): well-formed shapes, every cons-dir assignment, both travel directions
+    let mut wf: Vec<([u8; 3], u8)> = vec![];
+    let lens: &[u8] = if thorough { &[2, 3, 4] } else { &[2, 3] };
+    let lens0: Vec<u8> = std::iter::once(0u8).chain(lens.iter().copied()).collect();
+    for a in lens {
+        for b in &lens0 {
+            for c in &lens0 {
+                if *b == 0 && *c != 0 {
+                    continue;
+                }
+                let n = [*a, *b, *c].iter().filter(|x| **x > 0).count() as u32;
+                for cons in 0..(1u8 << n) {
+                    wf.push(([*a, *b, *c], cons));
+                }
+            }
+        }
+    }
+    wf.sort_by_key(|t| std::cmp::Reverse(t.0.iter().map(|x| *x as u32).sum::<u32>()));
+    let pair_limit_hops = if thorough { 9 } else { 4 };
+    let acc2 = wf
+        .par_iter()
+        .map(|(shape, cons)| {
+            let mut acc = Acc::default();
+            let lay = layout(*shape);
+            if let Some((fstart, rstart)) = check_authentic_walk(&lay, *cons, &mut acc) {
+                let pairs = lay.hops <= pair_limit_hops && (thorough || lay.segs.iter().all(|s| s.1 <= 2));
+                check_tamper(&lay, &lay.ord_of_hop, &|o| as_key(o), &fstart, "forward", pairs, &mut acc);
+                let n = lay.segs.len();
+                let mut rs = [0u8; 3];
+                for k in 0..n {
+                    rs[k] = lay.shape[n - 1 - k];
+                }
+                let rlay = layout(rs);
+                let nas = lay.nas;
+                check_tamper(&rlay, &rlay.ord_of_hop, &move |o| as_key(nas - 1 - o), &rstart, "backward", pairs, &mut acc);
+                acc.add("authentic_paths", 2);
+                acc.add(if pairs { "authentic_paths_with_all_pairs" } else { "authentic_paths_single_flips_only" }, 2);
+            }
+            acc
+        })
+        .reduce(Acc::default, |mut a, b| {
+            a.merge(b);
+            a
+        });
+    acc.merge(acc2);
+    let mut acc5 = Acc::default();
+    check_onehop(&mut acc5);
+    acc.merge(acc5);
+
+    let states = acc.distinct();
+    let transitions = acc.get("bfs_transitions") + acc.get("walk_calls");
+    let traces = acc.get("bfs_histories_replayed") + acc.get("walks") + acc.get("tamper_single_walks") + acc.get("tamper_pair_walks") + acc.get("control_walks");
+    let counters = json!(acc.counters);
+    let fwd_excess = acc.get("max_forwardings_beyond_hop_count");
+    if fwd_excess > 0 {
+        // cannot happen when "pointer-left-the-path" did not fire; kept as the direct statement of the property
+        acc.viol("more-forwardings-than-hop-fields", (0, 0), || "a sequence forwarded the packet more often than it has hop fields".into(), || Value::Null);
+    }
+    acc.flush(&run);
+    let bound = format!(
+        "(1)+(2): {} x every cons-dir assignment x CurrINF 0..3 x CurrHF 0..hops+1 = {} start states, every op sequence over 3 ops x 2 keys up to depth 2*hops+2 (merged on identical bytes; {} start states saturate below the bound, i.e. are closed under ALL longer sequences too); (3): all {} (well-formed shape, cons-dir assignment) pairs with 1-3 segments x {} hops, forward walk + try_reverse + walk back; (4): every single-bit flip of ExpTime/ConsIngress/ConsEgress/MAC/SegID/Timestamp on all of them in both travel directions, every PAIR of such bits for {}; (5) 192 one-hop constructions",
+        if thorough {
+            "all seg-len triples in {0..3}^3 x all peering masks x hop flags {0,1,2,3,0xFF} and all triples of {0..4}^3 containing a 4 x peering none/all x hop flags {0,0xFF}"
+        } else {
+            "all 64 seg-len triples in {0..3}^3 x peering none/all x hop flags {0,0xFF}"
+        },
+        acc.get("bfs_start_states"),
+        acc.get("bfs_start_states_saturated_below_bound"),
+        wf.len(),
+        if thorough { "2-4" } else { "2-3" },
+        if thorough { "every shape with <= 9 hop fields" } else { "shapes with <= 2 segments x 2 hops" },
+    );
+    run.finish(
+        "model_checking",
+        json!({
+            "states": states,
+            "transitions": transitions,
+            "traces_validated_against_impl": traces,
+            "traces_rule": "explicitly executed end-to-end histories: one replay from the start bytes per discovered (start state, state) pair + every canonical / tampered / control walk; the merged exploration additionally covers every op sequence up to the depth bound because a step only depends on (bytes, op, key) - validated by those replays",
+            "exhaustive": true,
+            "bound": bound,
+            "counters": counters,
+            "wall_s_exploration": (t_bfs * 10.0).round() / 10.0,
+        }),
+        &[
+            "authentic = MACs produced by the reference chain vpc::refmac (AES-CMAC over 0|beta|ts|0|exp|in|eg|0, truncated to 6 bytes, beta_{i+1} = beta_i xor MAC_i[0..2]); SegID at a segment start = beta_0 in construction direction, beta of the last-constructed hop against it",
+            "the AS that owns the last hop of a segment and the first hop of the next is one AS (one key); per-AS keys are distinct, the wrong key differs from all",
+            "'processed' in 'at most as many times as it has hop fields' is counted as forwardings = increments of CurrHF; repeated ingress calls at one hop without egress are not counted (they never move the pointer)",
+            "states merged on identical path bytes; merge validated by replaying every discovered state's history from the start bytes",
+            "tamper detection is required at or before the AS owning the touched hop field (info-field bits: first AS of the segment in travel order); a 48-bit CMAC collision would be reported as a violation (none expected at this scale)",
+            "peering-flagged paths take part in (1),(2) only; pocketscion's OneHopRoutingLogic is not driven (vp-path does not link pocketscion) - covered for one-hop: OneHopPath::new, set_second_hop (model+view), try_into_reversed_standard_path + standard advance",
+        ],
+    )
 }
